@@ -93,3 +93,13 @@ Theorem C05_makedir_writes_dots : forall s path t s',
     get_cluster e = c /\ is_dir e = true /\ d_size e = 0.
 Proof. exact makedir_writes_dots. Qed.
 Print Assumptions C05_makedir_writes_dots.
+(* the premises are met: makedir D on the FAT16 example volume of C16 succeeds, and the side conditions hold there *)
+From PyFatV Require Import Properties.C16.
+Example C05_makedir_example :
+  (exists s', op_makedir ex16_s1 [mkName [68] (Some [68]) (Some [68]) [68] [] true] false (2020, 1, 1, 0, 0, 0) = Ok s') /\
+  0 <= s_hint ex16_s1 /\ max_cluster ex16_s1 < 4294967296 /\ 2 <= Gen.MIN_DATA_CLUSTER (ft ex16_s1) /\ 0 < bytes_per_cluster (s_p ex16_s1).
+Proof.
+  split.
+  - destruct (op_makedir ex16_s1 [mkName [68] (Some [68]) (Some [68]) [68] [] true] false (2020, 1, 1, 0, 0, 0)) as [s'|] eqn:E; [exists s'; reflexivity|vm_compute in E; discriminate].
+  - repeat split; vm_compute; (reflexivity || discriminate).
+Qed.
